@@ -69,10 +69,14 @@ class FnSpec:
     entry: List[str] = field(default_factory=list)
     loops: Dict[int, Dict[str, List[str]]] = field(default_factory=dict)
     after_let: List[Tuple[str, int, str]] = field(default_factory=list)
+    before_let: List[Tuple[str, int, str]] = field(default_factory=list)
+    returns: List[Tuple[str, int, str]] = field(default_factory=list)   # (before_return|after_return_block, K, text)
     lifts: List[Lift] = field(default_factory=list)
     substs: List[Tuple[str, str]] = field(default_factory=list)
     foreach: List[int] = field(default_factory=list)
+    desugar_try: List[str] = field(default_factory=list)   # ordinals of `?` operators (or `all`) rewritten by rule R10
     no_canary: bool = False
+    stub: str = ""                 # leaf whose body is not emitted (contract proved in another unit / body not compilable alone)
     attrs: List[str] = field(default_factory=list)
 
     @property
@@ -162,6 +166,8 @@ def parse(path: str) -> UnitSpec:
             cur.rename = rest
         elif head == "ret":
             cur.ret = rest
+        elif head == "stub":
+            cur.stub = rest or "contract only"
         elif head == "nocanary":
             cur.no_canary = True
         elif head == "attr":
@@ -181,9 +187,14 @@ def parse(path: str) -> UnitSpec:
             if not m:
                 raise SpecError(f"{path}:{ln}: bad loop entry")
             cur.loops.setdefault(int(m.group(1)), {}).setdefault(m.group(2), []).append(m.group(3).strip())
-        elif head == "after_let":
+        elif head in ("after_let", "before_let"):
             m = re.match(r"^([A-Za-z_][A-Za-z0-9_]*)(?:#(\d+))?\s+(.*)$", rest, re.S)
-            cur.after_let.append((m.group(1), int(m.group(2) or 1), m.group(3)))
+            (cur.after_let if head == "after_let" else cur.before_let).append((m.group(1), int(m.group(2) or 1), m.group(3)))
+        elif head in ("before_return", "after_return_block"):
+            m = re.match(r"^(\d+)\s+(.*)$", rest, re.S)
+            if not m:
+                raise SpecError(f"{path}:{ln}: bad {head} entry")
+            cur.returns.append((head, int(m.group(1)), m.group(2)))
         elif head == "lift":
             m = re.match(r"^(chain|let)\s+([A-Za-z_][A-Za-z0-9_]*)(?:#(\d+)|\s+(\d+))?\s+(?:with\s+\((.*?)\)\s+)?as\s+(.*)$", rest, re.S)
             if not m:
@@ -192,6 +203,8 @@ def parse(path: str) -> UnitSpec:
         elif head == "subst":
             a, _, b = rest.partition("=>")
             cur.substs.append((a.strip(), b.strip()))
+        elif head == "desugar_try":
+            cur.desugar_try = rest.split()
         elif head == "foreach":
             cur.foreach.append(int(rest))
         else:
